@@ -221,7 +221,8 @@ def handle (tag : String) (args : List String) (obs : String) : String :=
         -- `rst<N>`: the first N bytes, then the client resets the connection (it never reads: its transcript is empty)
         else if _sched.startsWith "rst" then full.take ((_sched.drop 3).toString.toNat?.getD full.length) else full
       let cfg : Cfg := { smallBodyLen := s, cacheDir := cache != "0", fs := { createFails := cache == "2" } }
-      let (c, calls1) := handleConn false C05.simpleUrl cfg (handlerOf reqs) (max 64 (reqs.length + 8)) { input := all } []
+      let (c, calls1) := handleConn false C05.simpleUrl cfg (handlerOf reqs) (max 64 (reqs.length + 8))
+        { input := all, inputErr := _sched.startsWith "rst" } []
       -- `par3`: three connections send the same bytes; the merged call log is compared sorted
       let calls := calls1
       -- The server closed while client bytes were still unread: the kernel answers with a reset, and a
